@@ -137,13 +137,87 @@ def specStructural (a b : Arr) : Char := Id.run do
         else if x.low != y.low then natLetter x.low y.low else natLetter x.high y.high
   return natLetter a.size b.size
 
+/-- plain enumeration of the root-to-one paths: state = (budget, Σ 2^(n − length), paths as literal lists) -/
+def bruteGo (A : Arr) (n : Nat) : Nat → Nat → List (Nat × Bool) → (Nat × Nat × List (List (Nat × Bool))) →
+    Option (Nat × Nat × List (List (Nat × Bool)))
+  | 0, _, _, _ => none
+  | f + 1, p, lits, (bud, cnt, paths) =>
+    if bud = 0 then none
+    else if p = 0 then some (bud - 1, cnt, paths)
+    else if p = 1 then some (bud - 1, cnt + 2 ^ (n - lits.length), lits :: paths)
+    else
+      let nd := nodeAt A p
+      match bruteGo A n f nd.low ((nd.var, false) :: lits) (bud - 1, cnt, paths) with
+      | none => none
+      | some st => bruteGo A n f nd.high ((nd.var, true) :: lits) st
+
+/-- `(exact model count, root-to-one paths)` by path enumeration — independent of the cached level-gap
+    arithmetic of `exact_cardinality`; `none` beyond 200 000 steps -/
+def brute (A : Arr) : Option (Nat × List (List (Nat × Bool))) :=
+  if A.size = 1 then some (0, []) else
+  (bruteGo A (numVars A) (A.size + 1) (root A) [] (200000, 0, [])).map fun (_, c, ps) => (c, ps)
+
+/-- is the cube `lits` contained in the function of `B` below pointer `p`? (free variables: both branches) -/
+def cubeIn (B : Arr) (lits : Array (Option Bool)) : Nat → Nat → Nat → Option (Nat × Bool)
+  | 0, _, _ => none
+  | f + 1, p, bud =>
+    if bud = 0 then none
+    else if p = 0 then some (bud - 1, false)
+    else if p = 1 then some (bud - 1, true)
+    else
+      let nd := nodeAt B p
+      match lits.getD nd.var none with
+      | some b => cubeIn B lits f (if b then nd.high else nd.low) (bud - 1)
+      | none =>
+        match cubeIn B lits f nd.low (bud - 1) with
+        | none => none
+        | some (bud1, false) => some (bud1, false)
+        | some (bud1, true) => cubeIn B lits f nd.high bud1
+
+/-- pointwise implication `A ⇒ B` (same variable count) by cubes; `none` if too expensive -/
+def impliesBrute (A B : Arr) (pathsA : List (List (Nat × Bool))) : Option Bool :=
+  if B.size = 1 then some pathsA.isEmpty else
+  pathsA.foldl (fun acc lits => match acc with
+    | some (bud, true) =>
+      let cube := lits.foldl (fun (c : Array (Option Bool)) (x, b) => c.setIfInBounds x (some b)) (Array.replicate (numVars B) none)
+      cubeIn B cube (B.size + 1) (root B) bud
+    | other => other) (some (2000000, true)) |>.map (·.2)
+
+/-- the clauses about one ordered pair of WIDE operands (more than 12 variables): exact counts by path
+    enumeration (falling back to the proved model `exactCard` when that is too expensive), implication
+    by cube containment; everything in `Nat`, never a float -/
+def predPairWide (tag : String) (a b : Arr) (cs : List Char) : Option String :=
+  match cs with
+  | [sz, cd, st, im, sr] =>
+    let na := numVars a; let nb := numVars b
+    let ba := brute a; let bb := brute b
+    let ca := match ba with | some (c, _) => c | none => exactCard a
+    let cb := match bb with | some (c, _) => c | none => exactCard b
+    let impSpec : Option Char :=
+      if na != nb then some 'N' else
+      match ba, bb with
+      | some (_, pa), some (_, pb) =>
+        match impliesBrute a b pa, impliesBrute b a pb with
+        | some sub, some sup => some (if sub && sup then 'E' else if sub then 'L' else if sup then 'G' else 'N')
+        | _, _ => none
+      | _, _ => none
+    firstFail [
+      chk (ca == exactCard a && cb == exactCard b) s!"harness/model:exact-count{tag}",
+      chk (sz == natLetter a.size b.size) s!"cmp_size{tag}",
+      chk (cd == natLetter ca cb) s!"cmp_cardinality{tag}",
+      chk (st == (if na == nb then natLetter ca cb else 'N')) s!"cmp_cardinality_strict{tag}",
+      match impSpec with | some c => chk (im == c) s!"cmp_implies{tag}" | none => none,
+      chk (sr == specStructural a b) s!"cmp_structural{tag}",
+      chk ((sr == 'E') == (a == b)) s!"cmp_structural-Equal≠=={tag}" ]
+  | _ => some "fields"
+
 /-- the clauses about one ordered pair, `o` = the five observed letters -/
 def predPair (tag : String) (a b : Arr) (o : String) : Option String :=
   let cs := o.toList
   match cs with
   | [sz, cd, st, im, sr] =>
     let na := numVars a; let nb := numVars b
-    if na > 12 ∨ nb > 12 then none else
+    if na > 12 ∨ nb > 12 then predPairWide tag a b cs else
     let ta := ttOf a na; let tb := ttOf b nb
     let ca := popcount ta; let cb := popcount tb
     let sub := na == nb && (List.range (2 ^ na)).all fun i => !ta[i]! || tb[i]!
@@ -258,7 +332,8 @@ def handle (key : String) (ins obs : List String) : Verdict :=
         nontrivial := A.size > 1 || B.size > 1 || C.size > 1,
         tags := [ "cmp", if numVars A == numVars B && numVars B == numVars C then "same-n" else "mixed-n",
                   if isCanon A && isCanon B && isCanon C then "canon" else "noncanon",
-                  s!"imp{col ab 3}" ] }
+                  s!"imp{col ab 3}", if numVars A > 12 then "wide" else "narrow",
+                  if numVars A ≥ 52 && col ab 1 != 'E' && (exactCard A + 1 == exactCard B || exactCard B + 1 == exactCard A) then "count±1" else "count-far" ] }
     | _, _, _, _ => Verdict.bad "args"
   | _, _ => Verdict.bad ("key " ++ key)
 
